@@ -17,7 +17,7 @@ def bins():
 def _run(args):
     prof, binp, mode, seed, count, outdir = args
     os.makedirs(outdir, exist_ok=True)
-    rc, out, err = sh([binp, mode, str(seed), str(count), outdir], timeout=3600)
+    rc, out, err = sh([binp, mode, str(seed), str(count), outdir], timeout=1200)
     if rc != 0:
         return {"dir": outdir, "error": f"chan_v({prof}) rc={rc}: {err[-400:]}"}
     with open(os.path.join(outdir, "req.txt")) as fin, open(os.path.join(outdir, "model.txt"), "w") as fout:
@@ -101,9 +101,9 @@ def oracle(req, ans):
         if outs_now and code == "t":
             outs_now[-1] = (outs_now[-1][0], outs_now[-1][1] + 1)
         if outs_now and code == "r":
-            outs_now[-1] = (2000 + k, 0)
+            outs_now[-1] = (200000 + k, 0)
         if code in ("c", "t", "r"):
-            outs_now.append((1000 + k, 0))
+            outs_now.append((100000 + k, 0))
     if kind == "done":
         p = "C08"
         if first_fail is not None:
@@ -130,7 +130,7 @@ def oracle(req, ans):
         k = first_fail
         if len(calls) != k + 1:
             hits.append((p, f"{len(calls)} converter calls, expected {k + 1} (no call after the failure)"))
-        want = (f"e{3000 + k}" if script[k] == "e" else f"p{4000 + k}")
+        want = (f"e{300000 + k}" if script[k] == "e" else f"p{400000 + k}")
         if kv.get("why") != want:
             hits.append((p, f"caller received {kv.get('why')} instead of the converter's own {want}"))
         if kv.get("alloc") != "freed":
